@@ -93,7 +93,7 @@ theorem get_add_other (w : World) {b n : Nat} (s : HStore) (hn : n ≠ b) : (w.a
   have hb : (b == n) = false := by simpa using Ne.symm hn
   simp only [List.find?_append]
   cases w.stores.find? (fun e => e.1 == n) with
-  | none => simp [List.find?_cons, hb]
+  | none => simp [hb]
   | some e => simp
 
 theorem get_del_other (w : World) {a n : Nat} (hn : n ≠ a) : (w.del a).get n = w.get n := by
@@ -106,10 +106,10 @@ theorem get_del_other (w : World) {a n : Nat} (hn : n ≠ a) : (w.del a).get n =
     · have : (x.1 != a) = true := by
         have : x.1 = n := by simpa using hx
         simp [this, hn]
-      simp [List.filter_cons, this, List.find?_cons, hx]
+      simp [this, hx]
     · by_cases hxa : (x.1 != a) = true
-      · simp [List.filter_cons, hxa, List.find?_cons, hx, ih]
-      · simp [List.filter_cons, hxa, List.find?_cons, hx, ih]
+      · simp [hxa, hx, ih]
+      · simp [hxa, hx, ih]
 
 theorem get_heap (w : World) (h : Heap.Heap) (n : Nat) : ({ w with heap := h } : World).get n = w.get n := rfl
 
